@@ -1296,6 +1296,11 @@ def check_C07(ctx, rep):
     check_sample_limit(ctx, rep, 'C07.R5')
     check_state_limit_writers(ctx, rep, pid)
     check_decrement_sites(ctx, rep, pid)
+    # "completions for other machines or unknown ids never consume the limit": the id compared with runtime.len() and used as the
+    # index is the id the integration reported (MachineId's accessors are lossless)
+    rep.rule('C07.R6', 'MachineId::from_raw / into_raw are identity wrappers around usize: the id guarded and indexed with is the id reported')
+    from .rules_fw import check_helpers_ids
+    check_helpers_ids(ctx, rep, 'C07.R6')
     check_limit_reached(ctx, rep, pid)
     per_helper_or_composite(ctx, rep, pid, (check_limit_everywhere, rule_kind_table))
     rep.assumptions += ['every CFG path is treated as feasible', 'counts over concrete histories are not decided']
